@@ -460,6 +460,9 @@ fn handle(sh: &Arc<Shared>, mut rq: Request, c: usize, m: usize) {
                 c, m, a.status, total
             ));
             let mut w = lib(|| rq.into_writer());
+            if a.flush_first {
+                let _ = lib(|| w.flush());
+            }
             let body = resp_body(c, m, total);
             let mut ok = true;
             let mut errk = String::new();
